@@ -21,9 +21,9 @@ CONSTANTS MaxLines,
 Names == {"m", "m x"}
 Types == {<<"py", "module", TRUE>>, <<"py", "func", TRUE>>, <<"bad", "", FALSE>>,
           <<"rst", "directive:option", TRUE>>}          \* the type field is split at its FIRST colon only
-Entries == {e \in [name : Names, ty : Types, dollar : BOOLEAN, eloc : BOOLEAN, disp : {"-", "T", "m"}] :      \* ("m": a display name equal to the name m)
+Entries == {e \in [name : Names, ty : Types, dollar : BOOLEAN, eloc : BOOLEAN, disp : {"-", "T", "m", "E"}] :      \* ("m": a display name equal to the name m; "E": NO display name, the line ends after the location: malformed)
                /\ (e.eloc => ~e.dollar)
-               /\ (Shapes = "core" => ~e.eloc /\ e.disp # "m" /\ e.ty[1] # "rst")}
+               /\ (Shapes = "core" => ~e.eloc /\ e.disp \notin {"m", "E"} /\ e.ty[1] # "rst")}
 Frag(e, k) == "q" \o ToString(k)          \* literal fragment of line k (distinguishes lines)
 
 VARIABLES lines, pos, res
@@ -52,7 +52,7 @@ Assign(r, v) ==
 
 Entry == /\ pos <= Len(lines)
          /\ LET e == lines[pos] IN
-            res' = IF ~e.ty[3] THEN res                                      \* no ":" in type
+            res' = IF ~e.ty[3] \/ e.disp = "E" THEN res                     \* no ":" in type / no display-name field: the line is skipped
                    ELSE IF e.ty[1] = "py" /\ e.ty[2] = "module" /\ Has(res, Key(e)) /\ ~DevKeepLast
                         THEN res                                             \* first one is correct
                    ELSE Assign(res, Val(e, pos))
@@ -63,7 +63,7 @@ Spec == Init /\ [][Next]_vars
 Done == pos > Len(lines)
 
 (************************************ S ************************************************)
-Valid(k) == lines[k].ty[3]
+Valid(k) == lines[k].ty[3] /\ lines[k].disp # "E"
 IsMod(k) == lines[k].ty[1] = "py" /\ lines[k].ty[2] = "module"
 (* the line that defines key K *)
 Winner(K) == LET S == {k \in 1..Len(lines) : Valid(k) /\ Key(lines[k]) = K} IN
